@@ -208,8 +208,9 @@ PROPS['C02'] = dict(
     assumptions=["the full property is false of the code (F3 F4 F5: the verifier never demands the non-revocation part): _partial + _refuted theorems, known findings"],
 )
 PROPS['C03'] = dict(
-    lean_targets=['AnonModel.Props.C03Legacy', 'AnonModel.Props.C03W3C'],
-    required_theorems=['C03_legacy_revealed', 'C03_legacy_group', 'C03_legacy_altered_rejected', 'C03_w3c_issuer', 'C03_w3c_subject', 'C03_w3c_altered_rejected', 'C03_w3c_added_rejected'],
+    lean_targets=['AnonModel.Props.C03Legacy', 'AnonModel.Props.C03W3C', 'AnonModel.Props.C03Env'],
+    required_theorems=['C03_legacy_revealed', 'C03_legacy_group', 'C03_legacy_altered_rejected', 'C03_w3c_issuer', 'C03_w3c_subject', 'C03_w3c_altered_rejected', 'C03_w3c_added_rejected',
+                       'C03_w3c_envelope_refused', 'C03_w3c_accepted_envelope', 'C03_w3c_envelope_only_validity'],
     families=[dict(name='c03')], default_dir='safety',
     fam_theorem={'c03': 'C03_legacy_revealed / C03_legacy_group / C03_w3c_subject / C03_w3c_issuer'},
     rule="honest presentation + post-hoc edits: legacy — encoded changed / perturbed / taken from another attribute, raw only (not claimed: judged by the model), zero-padded and signed respellings of a numeric encoding, group member changed / swapped / added / removed / renamed, duplicate requested name with an uncovered member added (F20), consistent forgery incl. the sub-proof's own revealed value; W3C — subject value changed / added (known and unknown attribute) / number as string / zero-padded / swapped / removed / key respelled / boolean marker added, issuer, verificationMethod, proof-value cred_def_id and schema_id, proof purpose; two-credential: subjects swapped between credentials, credentials reordered." + SYS_RULE,
